@@ -175,7 +175,7 @@ def directed_readds():
         return srvcase.to_remote_tables(base["cfg"], {t["name"]: rows})
     out = []
     for s0, s2 in itertools.product(states, states):
-        for older in (False, True):
+        for older in (False, True, "partial"):
             c = copy.deepcopy(base)
             polls = [tables(s0)]
             n = 4
@@ -183,7 +183,9 @@ def directed_readds():
             if older:
                 sm = dict(s0, **{a: 3})
                 polls = [tables(sm), tables(s0)] if sm != s0 else [tables(s0)]
-                rule[f"on_L{t['name']}_modified|1"] = 3
+                # (a plain failure, or a failure after a first step: the entry is then never merged and is
+                #  the one older event the removed+added merge has to replay)
+                rule[f"on_L{t['name']}_modified|1"] = ["partial", 3] if older == "partial" else 3
             polls += [tables(None), tables(s2)]
             c["polls"] = polls
             c["fkpolicy"], c["retention"] = "disabled", 0
@@ -197,13 +199,73 @@ def directed_readds():
     return out
 
 
+def directed_partial_local():
+    """trashbin on: X is trashed, comes back changed (recycled; the differences are queued as a
+    purely local 'modified' whose handler fails after a first step, twice), and is modified again on
+    the bus one iteration later: the partially processed local entry must stay as it is"""
+    import random
+    import clicase
+    import srvcase
+    rng = random.Random(8)
+    while True:
+        base = clicase.gen_case(rng, {"shape": "flat", "retention": 1, "ntypes": 1, "p_unmapped_type": 0.0})
+        t = base["cfg"]["types"][0]
+        nk = [a for a in t["attrs"] if a not in t["pkey"]]
+        am = base["cdm"]["L" + t["name"]]["attrsmapping"]
+        if len(t["pkey"]) == 1 and len(nk) >= 2 and all("l_" + a in am for a in nk[:2]):
+            break
+    a, b = nk[:2]
+    pk = t["pkey"][0]
+
+    def tables(x):
+        rows = {2: {pk: 2, a: 1, b: 1}}
+        if x is not None:
+            rows[1] = dict({pk: 1}, **x)
+        return srvcase.to_remote_tables(base["cfg"], {t["name"]: rows})
+    out = []
+    for s1, s2 in (({a: 2, b: 1}, {a: 3, b: 1}), ({a: 2, b: 1}, {a: 2, b: 2}), ({a: None, b: 2}, {a: 1, b: 2})):
+        c = copy.deepcopy(base)
+        c["polls"] = [tables({a: 1, b: 1}), tables(None), tables(s1), tables(s2)]
+        c["fkpolicy"], c["retention"] = "disabled", 1
+        its = [{"limit": l, "now": 10 * (k + 2), "restart": False, "faults": True} for k, l in enumerate([4, 5, 6, 6, 7, 7])]
+        its += [{"limit": 7, "now": 200 + 10 * j, "restart": False, "faults": False} for j in range(4)]
+        c["sessions"] = {"iters": its, "outcomes": ["ok"] * 60, "fail_rule": {f"on_L{t['name']}_modified|1": ["partial", 3]}}
+        c["sseed"], c["session_opts"] = 0, {}
+        c["directed"] = True
+        out.append(c)
+    return out
+
+
+def partial_entry_rewritten(case, res):
+    """an entry that is partially processed at the end of one loop iteration and was not resolved
+    by a successful retry during the next one must still carry the same event at the end of that
+    iteration: it is never merged with another event"""
+    if case["remediation"] == "disabled":
+        return None
+    import props.c07 as c07
+    its = res["iters"]
+    for a, b in zip(its, its[1:]):
+        later = {q["num"]: q for q in b["queue"]}
+        resolved = {("_".join(c["h"].split("_")[1:-1]), c07.kstr(c["key"])) for c in b["calls"] if c["retry"] and c["out"] == "ok"}
+        for q in a["queue"]:
+            me = (q["local"][1], c07.kstr(q["local"][2]))
+            if q["local"][5] and q["num"] in later and me not in resolved:
+                q2 = later[q["num"]]
+                if (q2["local"][1], c07.kstr(q2["local"][2])) != me:
+                    continue        # the number was re-used for another object
+                if (q2["local"][0], cliprops.common.canon(q2["local"][3])) != (q["local"][0], cliprops.common.canon(q["local"][3])) \
+                        or (q["remote"] is None) != (q2["remote"] is None):
+                    return f"entry #{q['num']} ({q['local'][0]} {q['local'][1]} {q['local'][2]}, partially processed) was rewritten: {q['local'][3]} -> {q2['local'][3]}"
+    return None
+
+
 def run(ctx):
     base = cliprops.gen_cases(ctx, ctx.n(80, 2500), {"retention": 0, "remediation": "disabled"},
                               {"p_fail": 0.45, "p_partial": 0.2})
     # the same with the trashbin on, and the directed remove / re-add histories
     base = base + cliprops.gen_cases(ctx, ctx.n(30, 1200), {"retention": 1, "remediation": "disabled"},
                                      {"p_fail": 0.45, "p_partial": 0.2})
-    base = directed_readds() + base
+    base = directed_readds() + directed_partial_local() + base
     cases = []
     for c in base:
         for pol in ("disabled", "conservative", "maximum"):
@@ -238,6 +300,12 @@ def run(ctx):
                 unmodelled.append(i)
                 continue
             corr.append({"what": f"corr_client (remediation {cases[i]['remediation']}): client model != GenericClient on case {i}", **rep})
+    # an event already partially applied to the target is never merged (observed on the queue itself)
+    for i, c in enumerate(cases):
+        why = partial_entry_rewritten(c, res[i][0])
+        if why:
+            violations.append({"sig": None, "replay_kind": "client_case", "case": cliprops.common.enc(c),
+                               "what": f"policy {c['remediation']}: {why} (case {i})"})
     # same history, same final data under the three policies
     for j in range(0, len(cases), 3):
         finals, lives = [], []
